@@ -640,6 +640,7 @@ func (w *World) Close() {
 		c.Advance(time.Minute)
 	}
 	time.Sleep(300 * time.Microsecond)
+	w.QuiesceDBs() // nothing of this case runs on into the next one
 	verifhook.SetTuner(nil)
 	verifhook.SetPoint(nil)
 	runtime.KeepAlive(w.dead)
@@ -952,6 +953,25 @@ func (w *World) handlerPanic(t *Worker, call string, err *error) {
 	if err != nil {
 		*err = fmt.Errorf("%s unreachable (handler panicked)", t.Name)
 	}
+}
+
+// QuiesceDBs waits until no database of this world has background work left
+// (a dead process does nothing any more: before its files are wiped or its
+// objects collected, whatever its flush and compaction goroutines were doing
+// must have come to an end).
+func (w *World) QuiesceDBs() {
+	w.mu.Lock()
+	var dbs []*dkv.DB
+	for d := range w.dbs {
+		if db, ok := d.(*dkv.DB); ok {
+			dbs = append(dbs, db)
+		}
+	}
+	w.mu.Unlock()
+	for _, db := range dbs {
+		hx.WaitTasks(db.WaitOnTasks)
+	}
+	time.Sleep(200 * time.Microsecond)
 }
 
 // Kill stops a worker abruptly: no deregistration, its in-flight calls fail.
